@@ -275,6 +275,14 @@ def mutants(spec):
                     s = clone()
                     s["modules"][mi]["insts"][ii]["conns"] = [c for c in s["modules"][mi]["insts"][ii]["conns"] if c[0] != pname]
                     yield "missing_connection", "%s/%s/%s_port" % (depth, kind, "bundle" if p[0] == "bun" else "scalar"), s
+                    # ... missing because it was connected and then disconnect()-ed (an operation history ending without it)
+                    if not any(mm.get("history") for mm in spec["modules"]) and inst.get("via") != "mult_late":
+                        s = clone()
+                        mm = s["modules"][mi]
+                        mm["history"] = [[i2["name"], pn, copy.deepcopy(ee), "call"] for i2 in mm["insts"] for pn, ee in i2["conns"]]
+                        mm["history"].append([inst["name"], pname, None, "disconnect"])
+                        mm["insts"][ii]["conns"] = [c for c in mm["insts"][ii]["conns"] if c[0] != pname]
+                        yield "missing_connection", "%s/%s/%s_port_disconnected" % (depth, kind, "bundle" if p[0] == "bun" else "scalar"), s
             # -- extra connection
             if m["sigs"]:
                 s = clone(); s["modules"][mi]["insts"][ii]["conns"].append(["zz9", ["sig", m["sigs"][0][0]]])
